@@ -238,7 +238,12 @@ def entry_runs():
         r = pyimpspec.perform_kramers_kronig_test(noisy, test="cnls", num_RC=6, num_F_ext_evaluations=0, max_nfev=50, num_procs=p)
         return (int(r.num_RC), repr(float(r.pseudo_chisqr)), digest(r.impedances))
 
-    out = {"fit_circuit[4 methods x 3 weights]": quiet(fit), "evaluate_log_F_ext[N=10]": quiet(kk_ext), "kramers_kronig[cnls]": quiet(kk_cnls)}
+    def kk_de(p):
+        r = pyimpspec.perform_kramers_kronig_test(noisy, test="real", num_F_ext_evaluations=-10, num_procs=p)
+        return (int(r.num_RC), repr(float(r.pseudo_chisqr)), repr(float(r.log_F_ext)))
+
+    out = {"fit_circuit[4 methods x 3 weights]": quiet(fit), "evaluate_log_F_ext[N=10]": quiet(kk_ext), "kramers_kronig[cnls]": quiet(kk_cnls),
+           "perform_kramers_kronig_test[N=-10, differential evolution]": quiet(kk_de)}
     for name, d in sp.items():
         out[f"perform_zhit[auto x auto x auto] on {name}"] = quiet(lambda p, d=d: zhit_result(d, num_procs=p))
     return out
@@ -306,6 +311,32 @@ def run(tier: str, seed: int) -> int:
                 v.report(f"zhit:schedule-dependent-{what}", {"spectrum": name, "stage1_order": order, "stage2_order": done, "serial": serial, "got": got},
                          f"perform_zhit on {name}: serial {serial[:4]} but {got[:4]} when results arrive as {order}/{done}")
         v.sample({"spectrum": name, "serial": serial[:4], "schedules": len(pairs)})
+    # 2b. the same schedules on fit_circuit with exactly tying candidates (a resistor fitted to a resistive spectrum:
+    #     several weights give bit-identical results); ordered collection must make the schedule irrelevant
+    import warnings
+    from pyimpspec import fit_circuit, parse_cdc
+
+    def fit_ties(p):
+        with warnings.catch_warnings():
+            warnings.simplefilter("ignore")
+            with np.errstate(all="ignore"):
+                r = fit_circuit(parse_cdc("R{R=50}"), sp["resistor (every candidate ties)"], method=["nelder", "leastsq"],
+                                weight=["boukamp", "modulus", "unity", "proportional"], max_nfev=200, num_procs=p)
+        return (r.method, r.weight, repr(float(r.pseudo_chisqr)), r.circuit.serialize())
+
+    serial = fit_ties(1)
+    for order, done in pairs:
+        with patched_pools([list(done), list(order)]):
+            got = fit_ties(2)
+            used = ControlledPool.created
+        if used < 1:
+            raise MachineryError("fit_circuit created no pool; the substitution does not control its fan-out")
+        v.replayed += 1
+        if got != serial:
+            what = "label" if got[2:] == serial[2:] else "numbers"
+            v.report(f"fit:schedule-dependent-{what}", {"completion_order": done, "serial": serial, "got": got},
+                     f"fit_circuit with tying candidates: serial {serial[:3]} but {got[:3]} when results arrive as {done}")
+    v.sample({"entry": "fit_circuit on a resistive spectrum", "serial": serial[:3], "schedules": len(pairs)})
     # 3. real multiprocessing
     procs = [1, 2, 4, 16] if tier == "thorough" else [1, 2, 4]
     repeats = 3 if tier == "thorough" else 1
